@@ -176,6 +176,16 @@ func buildFamily(family string, n int) (expr string, list []string) {
 		}
 		expr = join(parts, "OR")
 		list = []string{"GPL-3.0-only WITH " + tb.Exceptions[0]}
+	case "unclosed-and-nest": // a syntax error at the bottom of n open groups
+		expr = strings.Repeat("(MIT AND ", n) + "MIT"
+	case "unclosed-nesting":
+		expr = strings.Repeat("(", n) + "MIT"
+	case "bad-id-deep":
+		expr = strings.Repeat("(", n) + "MIT OR FOO" + strings.Repeat(")", n)
+	case "missing-operand-deep":
+		expr = strings.Repeat("(ISC OR ", n) + "MIT AND" + strings.Repeat(")", n)
+	case "extra-close":
+		expr = "MIT" + strings.Repeat(")", n)
 	case "long-id":
 		expr = strings.Repeat("a", n)
 	case "long-ref":
@@ -223,6 +233,11 @@ var c14Families = []familySpec{
 	{"long-list", 4, false, 256, 8192},
 	{"or-later-rewrites", 4, false, 128, 4096},
 	{"with-exceptions", 4, false, 64, 2048},
+	{"unclosed-and-nest", 2, true, 64, 4096},
+	{"unclosed-nesting", 2, true, 96, 8192},
+	{"bad-id-deep", 2, true, 96, 8192},
+	{"missing-operand-deep", 2, true, 64, 4096},
+	{"extra-close", 4, false, 512, 16384},
 	{"long-id", 64, false, 65536, 1 << 20},
 	{"long-ref", 64, false, 65536, 1 << 20},
 	{"spaces", 64, false, 16384, 1 << 17},
